@@ -114,7 +114,11 @@ func runGen(cfg *Cfg) {
 		reqs = append(reqs, req)
 		// C13: byte-identical across fresh processes
 		var first *pluginpb.CodeGeneratorResponse
-		for k := 0; k < runs; k++ {
+		nruns := runs
+		if len(req.ProtoFile) > 2 {
+			nruns = runs * 3 // several imports: order-of-iteration effects are probabilistic per run
+		}
+		for k := 0; k < nruns; k++ {
 			resp, _, err := pluginRun(plugin, req)
 			out.Case(fmt.Sprintf("rerun:%s:%d", rep.ID, k), true)
 			if err != nil || resp.Error != nil {
